@@ -25,16 +25,23 @@ def case_strategy(draw, name):
   desc = draw(gen.dataset_desc(dmax=6, scales=False))
   if big:
     desc['logscale'] = draw(st.sampled_from([1, 2]))
+  extreme = draw(st.integers(0, 5)) == 0
   return dict(est=name, desc=desc, prior=draw(st.sampled_from(['identity', 'covariance', 'random', 'array'])),
               aseed=draw(st.integers(0, 999)), seed=draw(st.integers(0, 10 ** 6)),
               loggamma=draw(st.floats(-2, 2, allow_nan=False)),
               bounds=draw(st.sampled_from(['default', 'default', 'explicit', 'swapped', 'feasible'])),
               bfrac=[draw(st.floats(0.05, 0.6, allow_nan=False)), draw(st.floats(0.4, 1.5, allow_nan=False))],
               max_iter=draw(st.sampled_from([1, 2, 5, 5000, 5000])), tol=draw(st.sampled_from([1e-3, 1e-10, 1e-10])),
-              n_pairs=draw(st.integers(4, 60)))
+              n_pairs=draw(st.integers(4, 60)), extreme=extreme, xscale=draw(st.sampled_from([-5, -4, -3, 3, 4, 5])))
 
 
 def _fix(case):
+  if case.get('extreme') and case['bounds'] != 'default':
+    # features of magnitude 1e-5 .. 1e5 with bounds given relative to the prior's distances: the dual variables
+    # then have magnitude 1e-10 .. 1e10 although the problem is as well conditioned as at unit scale
+    case['desc']['logscale'] = case['xscale']
+    if case['prior'] in ('random', 'array'):
+      case['prior'] = 'identity'
   # default bounds are percentiles over ALL pairwise distances including the zero diagonal: with <= 20 distinct
   # points the 5th percentile is 0 (stored as 1e-9), an extreme bound that makes the certificate inconclusive
   if case['bounds'] == 'default' and case['n_pairs'] < 16:
